@@ -78,6 +78,8 @@ static void mantis_ctr_vec128_cleanup(MantisCTR_t *ctr)
     }
 }
 
+static void mantis_ctr_vec128_reset_keystream(MantisCTRVec128Ctx_t *ctx);
+
 static int mantis_ctr_vec128_set_key
     (MantisCTR_t *ctr, const void *key, unsigned size, unsigned rounds)
 {
@@ -95,7 +97,7 @@ static int mantis_ctr_vec128_set_key
         return 0;
 
     /* Reset the keystream */
-    ctx->offset = MANTIS_CTR_BLOCK_SIZE;
+    mantis_ctr_vec128_reset_keystream(ctx);
     return 1;
 }
 
@@ -114,7 +116,7 @@ static int mantis_ctr_vec128_set_tweak
         return 0;
 
     /* Reset the keystream */
-    ctx->offset = MANTIS_CTR_BLOCK_SIZE;
+    mantis_ctr_vec128_reset_keystream(ctx);
     return 1;
 }
 
@@ -136,6 +138,44 @@ STATIC_INLINE void mantis_ctr_increment
         inc += ptr[0];
         ptr[0] = (uint8_t)inc;
         inc >>= 8;
+    }
+}
+
+/* Decrement a specific column in an array of row vectors */
+STATIC_INLINE void mantis_ctr_decrement
+    (SkinnyVector8x16_t *counter, unsigned column, unsigned dec)
+{
+    uint8_t *ctr = ((uint8_t *)counter) + column * 2;
+    uint8_t *ptr;
+    unsigned index;
+    for (index = 8; index > 0; ) {
+        --index;
+        ptr = ctr + (index & 0x06) * 8;
+#if SKINNY_LITTLE_ENDIAN
+        ptr += index & 0x01;
+#else
+        ptr += 1 - (index & 0x01);
+#endif
+        dec = ptr[0] - dec;
+        ptr[0] = (uint8_t)dec;
+        dec = (dec >> 8) & 1;
+    }
+}
+
+/* Resets the keystream after a key or tweak change.  As in the generic
+   back end, the rest of the current keystream block is discarded and
+   the next block continues with the following counter value: the lane
+   counters are wound back over the whole blocks of the current batch
+   that have not been used yet */
+static void mantis_ctr_vec128_reset_keystream(MantisCTRVec128Ctx_t *ctx)
+{
+    if (ctx->offset < MANTIS_CTR_BLOCK_SIZE) {
+        unsigned used = (ctx->offset + MANTIS_BLOCK_SIZE - 1) / MANTIS_BLOCK_SIZE;
+        unsigned unused = (MANTIS_CTR_BLOCK_SIZE / MANTIS_BLOCK_SIZE) - used;
+        unsigned lane;
+        for (lane = 0; lane < 8; ++lane)
+            mantis_ctr_decrement(ctx->counter, lane, unused);
+        ctx->offset = MANTIS_CTR_BLOCK_SIZE;
     }
 }
 
